@@ -381,6 +381,9 @@ func (c *zzFakeConsensus) ImpliesMaximalPrevotes(context *diffdb.Database, block
 func (c *zzFakeConsensus) BFTBeforeTransactionsExecute(blockHeader blockchain.SealedBlockHeader, diffStore *diffdb.Database) error {
 	return nil
 }
+func (c *zzFakeConsensus) BFTAfterTransactionsExecute(*diffdb.Database, uint64, uint64, []*labi.Validator) error {
+	return nil
+}
 
 // zzChainAt returns a chain whose last block has the given height (the node's tip after fork
 // choice); a fresh Chain per forge models a chain switch.
